@@ -41,6 +41,7 @@ pub struct IncRun {
     pub mock: Addr,
     pub collector: Addr,
     pub lp: Addr,
+    pub lp_asset: A,
     pub rwd: Addr,
     pub rwd2: Addr,
     pub users: Vec<Addr>,
@@ -49,7 +50,10 @@ pub struct IncRun {
 
 impl IncRun {
     /// fee_asset: "uwhale" (native, also a reward asset) or "rwd" (cw20, also a reward asset)
-    pub fn new(fee_asset: &str) -> IncRun {
+    pub fn new(fee_asset: &str) -> IncRun { IncRun::new_lp(fee_asset, false) }
+
+    /// `native_lp`: the staked LP asset is a native denom ("ulp"; what token-factory pools use) instead of a cw20 token
+    pub fn new_lp(fee_asset: &str, native_lp: bool) -> IncRun {
         let mut w = World::new();
         w.add_denom("uwhale");
         w.add_denom("uusdc");
@@ -62,10 +66,11 @@ impl IncRun {
         let rwd2 = match w.add_cw20("rewardtwo", "RWDB", 6) { A::Cw20(a) => a, _ => unreachable!() };
         let fee = if fee_asset == "uwhale" { A::Native("uwhale".into()).asset(1000) } else { A::Cw20(rwd.clone()).asset(1000) };
         let factory = w.new_incentive_factory(&collector, &mock, fee);
-        let incentive = w.create_incentive(&factory, &AssetInfo::Token { contract_addr: lp.to_string() }, "incentive").unwrap();
+        let lp_asset = if native_lp { w.add_denom("ulp") } else { A::Cw20(lp.clone()) };
+        let incentive = w.create_incentive(&factory, &lp_asset.info(), "incentive").unwrap();
         let users: Vec<Addr> = USERS.iter().map(|u| w.add_account(u)).collect();
         for u in &users {
-            w.fund(u, &A::Cw20(lp.clone()), 1u128 << 110);
+            w.fund(u, &lp_asset, 1u128 << 110);
             w.fund(u, &A::Cw20(rwd.clone()), 1u128 << 110);
             w.fund(u, &A::Cw20(rwd2.clone()), 1u128 << 110);
             w.mint_native(u, "uwhale", 1u128 << 110);
@@ -73,7 +78,7 @@ impl IncRun {
         }
         let owner = w.owner.clone();
         w.mint_native(&owner, "uwhale", 1u128 << 100);
-        IncRun { w, factory, incentive, mock, collector, lp, rwd, rwd2, users, fee_asset: fee_asset.to_string() }
+        IncRun { w, factory, incentive, mock, collector, lp, lp_asset, rwd, rwd2, users, fee_asset: fee_asset.to_string() }
     }
 
     pub fn reward_asset(&self, name: &str) -> A {
@@ -101,15 +106,34 @@ impl IncRun {
     /// flows as (id, creator, asset info, base amount, funded = latest expanded amount, claimed, start, end);
     /// parsed from JSON values (the typed response has integer-keyed maps)
     pub fn flows(&self) -> Vec<FlowView> {
-        let r: Value = self.w.query(&self.incentive, &QueryMsg::Flows { start_epoch: None, end_epoch: None }).unwrap();
+        // The Flows query only shows the part of a flow's expansion history that lies inside an epoch window
+        // (by default the 100 epochs from the flow's start: an expansion made before a future-dated flow starts, or more
+        // than 100 epochs after its start, is not in the default answer).  The whole history is read window by window.
+        let cur = self.epoch();
+        let mut hists: std::collections::BTreeMap<u64, std::collections::BTreeMap<u64, u128>> = Default::default();
+        let mut rows: std::collections::BTreeMap<u64, Value> = Default::default();
+        let mut w0 = 0u64;
+        loop {
+            let r: Value = self.w.query(&self.incentive, &QueryMsg::Flows { start_epoch: Some(w0), end_epoch: Some(w0 + 100) }).unwrap();
+            if std::env::var("WWV_DEBUG_FLOWS").is_ok() { eprintln!("FLOWS[{w0}] {}", r); }
+            for f in r.as_array().cloned().or_else(|| r["flows"].as_array().cloned()).unwrap_or_default() {
+                let id = f["flow_id"].as_u64().unwrap();
+                let h = hists.entry(id).or_default();
+                if let Some(m) = f["asset_history"].as_object() {
+                    for (k, v) in m { h.insert(k.parse::<u64>().unwrap_or(0), v[0].as_str().unwrap().parse::<u128>().unwrap()); }
+                }
+                rows.insert(id, f);
+            }
+            w0 += 101;
+            if w0 > cur + 2 { break; }
+        }
         let mut out = vec![];
-        for f in r.as_array().cloned().or_else(|| r["flows"].as_array().cloned()).unwrap_or_default() {
+        for (id, f) in rows {
             let info: AssetInfo = serde_json::from_value(f["flow_asset"]["info"].clone()).unwrap();
             let base: u128 = f["flow_asset"]["amount"].as_str().unwrap().parse().unwrap();
-            let mut hist: Vec<(u64, u128)> = f["asset_history"].as_object().map(|m| m.iter().map(|(k, v)| (k.parse::<u64>().unwrap_or(0), v[0].as_str().unwrap().parse::<u128>().unwrap())).collect()).unwrap_or_default();
-            hist.sort();
-            out.push(FlowView { flow_id: f["flow_id"].as_u64().unwrap(), flow_creator: f["flow_creator"].as_str().unwrap().to_string(), info,
-                base, funded: hist.last().map(|x| x.1).unwrap_or(base), claimed: f["claimed_amount"].as_str().unwrap().parse().unwrap(),
+            let hist = &hists[&id];
+            out.push(FlowView { flow_id: id, flow_creator: f["flow_creator"].as_str().unwrap().to_string(), info,
+                base, funded: hist.iter().next_back().map(|x| *x.1).unwrap_or(base), claimed: f["claimed_amount"].as_str().unwrap().parse().unwrap(),
                 start_epoch: f["start_epoch"].as_u64().unwrap(), end_epoch: f["end_epoch"].as_u64().unwrap() });
         }
         out
@@ -133,7 +157,7 @@ impl IncRun {
 
     pub fn obs(&self) -> Value {
         let w = &self.w;
-        let lpa = A::Cw20(self.lp.clone());
+        let lpa = self.lp_asset.clone();
         let epoch = self.epoch();
         let mut open = serde_json::Map::new();
         let mut closed = serde_json::Map::new();
@@ -196,14 +220,18 @@ impl IncRun {
                 let recv = args["recv"].as_str().unwrap();
                 let a = amt("amt");
                 let allow = amt("allow");
-                self.w.set_allowance(&u, &self.lp.clone(), &inc, allow);
+                // what is handed over with the message: a cw20 allowance, or coins of the native LP denom
+                let funds: Vec<Coin> = match self.lp_asset.clone() {
+                    A::Cw20(t) => { self.w.set_allowance(&u, &t, &inc, allow); vec![] }
+                    A::Native(d) => if allow > 0 { vec![coin(allow, d)] } else { vec![] },
+                };
                 let dur: u64 = args["dur"].as_str().unwrap().parse().unwrap();
                 let receiver = if recv == USERS[ui] { None } else { Some(self.users[USERS.iter().position(|x| *x == recv).unwrap()].to_string()) };
                 dpre = self.w.digest();
                 if op == "open" {
-                    self.w.exec(&u, &inc, &ExecuteMsg::OpenPosition { amount: Uint128::new(a), unbonding_duration: dur, receiver }, &[])
+                    self.w.exec(&u, &inc, &ExecuteMsg::OpenPosition { amount: Uint128::new(a), unbonding_duration: dur, receiver }, &funds)
                 } else {
-                    self.w.exec(&u, &inc, &ExecuteMsg::ExpandPosition { amount: Uint128::new(a), unbonding_duration: dur, receiver }, &[])
+                    self.w.exec(&u, &inc, &ExecuteMsg::ExpandPosition { amount: Uint128::new(a), unbonding_duration: dur, receiver }, &funds)
                 }
             }
             "close" => { dpre = self.w.digest(); self.w.exec(&u, &inc, &ExecuteMsg::ClosePosition { unbonding_duration: args["dur"].as_str().unwrap().parse().unwrap() }, &[]) }
@@ -226,10 +254,13 @@ impl IncRun {
                 dpre = self.w.digest();
                 if op == "openflow" {
                     let cur = self.epoch();
-                    self.w.exec(&u, &inc, &ExecuteMsg::OpenFlow { start_epoch: None, end_epoch: Some(cur + args["len"].as_u64().unwrap_or(10)), curve: None,
+                    // start: 0 = unset (the current epoch); otherwise an offset, 100 + k = k epochs in the future, k < 100 = k epochs in the past
+                    let start = match args["start"].as_u64().unwrap_or(0) { 0 => None, k if k >= 100 => Some(cur + (k - 100)), k => Some(cur.saturating_sub(k)) };
+                    self.w.exec(&u, &inc, &ExecuteMsg::OpenFlow { start_epoch: start, end_epoch: Some(cur + args["len"].as_u64().unwrap_or(10)), curve: None,
                         flow_asset: ra.asset(a), flow_label: None }, &funds)
                 } else {
                     let cur = self.epoch();
+                    if std::env::var("WWV_DEBUG_FLOWS").is_ok() { eprintln!("EXPAND id {:?} ext {:?} cur {} amount {} funds {:?}", args["id"], args["ext"], cur, a, funds); }
                     self.w.exec(&u, &inc, &ExecuteMsg::ExpandFlow { flow_identifier: FlowIdentifier::Id(args["id"].as_u64().unwrap()), end_epoch: match args["ext"].as_u64().unwrap_or(0) { 0 => None, k => Some(cur + k) }, flow_asset: ra.asset(a) }, &funds)
                 }
             }
@@ -265,7 +296,8 @@ fn pos_amount(r: &mut StdRng, scale: u128) -> u128 {
 pub fn run_random(rec: &mut Rec, seed: u64, run: u64, nops: usize) {
     let mut r = gen::rng(seed, run ^ 0x494e_4345);
     let fee_asset = if run % 2 == 0 { "uwhale" } else { "rwd" };
-    let mut p = IncRun::new(fee_asset);
+    // every fifth run stakes a native LP denom
+    let mut p = IncRun::new_lp(fee_asset, run % 5 == 4);
     rec.emit(json!({"ev": "reset", "suite": "incentive", "run": run, "seed": seed.to_string(), "ops": nops,
         "cfg": {"fee_asset": fee_asset, "fee": "1000"}, "obs": p.obs()}));
     let scale = *gen::pick(&mut r, &[1_000u128, 1_000_000_000, 1u128 << 64, 1u128 << 100]);
@@ -282,7 +314,7 @@ pub fn run_random(rec: &mut Rec, seed: u64, run: u64, nops: usize) {
         match roll {
             0..=17 => {
                 let a = pos_amount(&mut r, scale);
-                let allow = match r.gen_range(0..8) { 0 => a - 1, 1 => 0, _ => a };
+                let allow = match r.gen_range(0..8) { 0 => a - 1, 1 => 0, 2 => a + 1, _ => a };
                 let recv = if r.gen_bool(0.25) { USERS[r.gen_range(0..3usize)] } else { USERS[ui] };
                 let op = if r.gen_bool(0.5) { "open" } else { "expand" };
                 p.step(rec, run, step, op, ui, json!({"amt": s(a), "allow": s(allow), "dur": dur.to_string(), "recv": recv}))
@@ -310,7 +342,8 @@ pub fn run_random(rec: &mut Rec, seed: u64, run: u64, nops: usize) {
                     funds.push(json!({"d": fa, "amt": s(fx)}));
                     funds.push(json!({"d": asset, "amt": s(ax)}));
                 }
-                p.step(rec, run, step, "openflow", ui, json!({"asset": asset, "amt": s(a), "funds": funds, "len": match r.gen_range(0..8) { 0 => 150u64, 1 => 181, 2 => 300, _ => r.gen_range(1..20u64) }}))
+                p.step(rec, run, step, "openflow", ui, json!({"asset": asset, "amt": s(a), "funds": funds, "len": match r.gen_range(0..8) { 0 => 150u64, 1 => 181, 2 => 300, _ => r.gen_range(1..20u64) },
+                    "start": match r.gen_range(0..10) { 0 => 1u64, 1 => 3, 2 => 8, 3 => 101, 4 => 105, _ => 0 }}))
             }
             87..=92 => {
                 let fl = p.flows();
